@@ -237,7 +237,10 @@ class SpawnProcess(multiprocessing.context.SpawnProcess):
     @staticmethod
     def _finalize(logger_thread, q):
         q.put(None)
-        logger_thread.join()
+        # Do not `join` the thread here. This is a weakref callback; if the object is
+        # reclaimed by the cyclic garbage collector, it runs at an arbitrary point of an
+        # arbitrary thread, e.g. inside `threading` internals that hold the lock
+        # which `join` needs, and then deadlocks. The thread exits upon the `None`.
 
     @staticmethod
     def handle_exception(exc):
